@@ -46,7 +46,14 @@ REQUIRED_CLASSES = ['trans:none', 'trans:1', 'trans:2', 'trans:3',
                     'misc:1', 'misc:2', 'refs', 'hist:set_wavenumbers', 'hist:set_imaginary_substitute',
                     'hist:set_spin', 'opt:include_ZPE', 'opt:raise_error=False', 'opt:use_references=False',
                     'regime:theta>>T', 'regime:theta<<T', 'geom:monatomic', 'geom:linear', 'geom:nonlinear',
-                    'pointgroups:exhaustive',
+                    'pointgroups:exhaustive', 'pointgroups:runtime_table', 'pointgroups:docstring_table',
+                    'sigma:label_from_runtime_table',
+                    # assembly route: mode CLASSES + flat keyword arguments (documented, what presets do)
+                    'route:class:FreeTrans', 'route:class:HarmonicVib', 'route:class:QRRHOVib',
+                    'route:class:EinsteinVib', 'route:class:DebyeVib', 'route:class:RigidRotor',
+                    'route:class:GroundStateElec', 'route:class:EmptyNucl', 'route:class:EmptyMode',
+                    'route:class:all_slots', 'route:class:imaginary_substitute', 'route:class:sigma_label',
+                    'route:class:typed',
                     # exact ties (symmetric / spherical tops, degenerate vibrations)
                     'rot:symmetric_top', 'rot:spherical_top', 'vib:degenerate',
                     # corners of the quantifier box (low T / characteristic-temperature ratios etc.)
@@ -96,6 +103,15 @@ ASSUMPTIONS = [
     'miss on the G2 set: linear/nonlinear where every / some i-j-k angle deviates <1 / >10 degrees from '
     'collinear, rotational temperatures from the inertia tensor (3e-3; pMuTT amu literal has 4 digits; '
     'observed 2.3e-5), molar mass vs. the sum of ASE atomic masses (5e-2; observed 3.7e-4)',
+    'assembly routes: besides ready-made mode objects, species are assembled the documented class + '
+    'flat-kwargs way (StatMech(vib_model=vib.HarmonicVib, vib_wavenumbers=..., ...), what presets do) for '
+    'every mode class and every constructor parameter; the modes such a species holds must satisfy the '
+    'closed forms and its totals must equal the object-route species (1e-12)',
+    '"any documented point-group label" is read from the tree under test at run time (point-group keys of '
+    'constants.symmetry_dict, CAS-number keys skipped, plus the table in the RigidRotor docstring) and '
+    'every label is compared with a rule-based reference (C1/Ci/Cs 1; Cn/Cnv/Cnh n; Dn/Dnd/Dnh 2n; S2n n; '
+    'T/Td/Th 12; O/Oh 24; I/Ih 60; Cinfv 1; Dinfh 2); a label the rule does not understand is an '
+    'inconclusive point for that label only',
     'parameter typing stratum: whole-number parameter values handed over as Python int or numpy int64 '
     '(or everything as numpy float64), sequences as list / tuple / ndarray, whole temperatures as int / '
     'numpy int64 must give the closed forms of the numeric values (R7) and exactly (1e-12) what the same '
@@ -436,6 +452,16 @@ def gen_species(rng, force=None):
     spec['hist'] = _gen_hist(rng, spec) if rng.random() < 0.4 else []
     if rng.random() < 0.3:
         _typing(rng, spec)
+    # assembly route (appended draws: the stream of everything above is unchanged)
+    if rng.random() < 0.45:
+        if rng.random() < 0.4:
+            spec['route'] = {sl: 'class' for sl in SLOTS}
+        else:
+            spec['route'] = {sl: rng.choice(['class', 'object']) for sl in SLOTS}
+            spec['route'][rng.choice(SLOTS)] = 'class'
+    if spec['rot'] and isinstance(spec['rot']['symmetrynumber'], str) and rng.random() < 0.5:
+        # "any documented label": index into the table of the tree under test (resolved at run time)
+        spec['rot']['symmetrynumber'] = '@%d' % rng.randrange(1000)
     return spec
 
 
@@ -480,6 +506,9 @@ def directed(tier):
     D = []
     # R9 exhaustive over the documented point-group table (pre-finding: all labels raise)
     D.append({'kind': 'pointgroups', 'labels': LABELS, 'T': 350.0, 'rot_temperatures': [12.5, 3.1, 0.7]})
+    # ... and over whatever the tree under test documents (constants.symmetry_dict point-group keys and the
+    # table in the RigidRotor docstring, read at run time), against the rule-based reference
+    D.append({'kind': 'pointgroups', 'labels': '@documented', 'T': 410.0, 'rot_temperatures': [7.7, 2.9, 1.3]})
     ft3 = {'type': 'FreeTrans', 'n_degrees': 3, 'molecular_weight': 18.015}
     h2o_vib = {'type': 'HarmonicVib', 'vib_wavenumbers': [3825.434, 3710.264, 1582.432],
                'imaginary_substitute': None}
@@ -623,6 +652,27 @@ def directed(tier):
                  typing=ity('np.int64', 'tuple')))
     D.append(_sp(trans=ft3, vib=h2o_vib, rot=h2o_rot, elec=h2o_el, typing=ity('float', 'tuple', 'float')))
     D.append(_sp(trans=ft3, vib=h2o_vib, rot=h2o_rot, elec=h2o_el, typing=ity('np.float64', 'ndarray', 'float')))
+    # assembly by mode classes + flat keyword arguments (the presets route), all slots / mixed
+    allc = {sl: 'class' for sl in SLOTS}
+    D.append(_sp(trans=ft3, rot=h2o_rot, elec=h2o_el, nucl={'type': 'EmptyNucl'}, route=allc,
+                 vib={'type': 'HarmonicVib', 'vib_wavenumbers': [-512.0, 150.0, -30.0, 2900.0],
+                      'imaginary_substitute': 50.0}))
+    D.append(_sp(trans=ft3, elec=h2o_el, route=allc,
+                 rot={'type': 'RigidRotor', 'symmetrynumber': 'D3h', 'geometry': 'nonlinear',
+                      'rot_temperatures': [0.5, 0.5, 0.25]},
+                 vib={'type': 'QRRHOVib', 'vib_wavenumbers': [-300.0, 20.0, 1500.0], 'Bav': 1e-46, 'v0': 50.0,
+                      'alpha': 2, 'imaginary_substitute': 75.0}))
+    D.append(_sp(vib={'type': 'HarmonicVib', 'vib_wavenumbers': [100.0, -200.0, 3000.0], 'imaginary_substitute': None},
+                 elec=h2o_el, route=allc))
+    D.append(_sp(vib={'type': 'EinsteinVib', 'einstein_temperature': 300.0, 'interaction_energy': -0.2},
+                 elec={'type': 'GroundStateElec', 'potentialenergy': -3.5, 'spin': 1.5}, route=allc))
+    D.append(_sp(vib={'type': 'DebyeVib', 'debye_temperature': 300.0, 'interaction_energy': -0.2},
+                 trans={'type': 'FreeTrans', 'n_degrees': 2, 'molecular_weight': 63.5},
+                 route=dict(allc, elec='object')))
+    D.append(_sp(vib={'type': 'HarmonicVib', 'vib_wavenumbers': iw, 'imaginary_substitute': 62.5},
+                 rot={'type': 'RigidRotor', 'symmetrynumber': 2, 'geometry': 'linear', 'rot_temperatures': [3]},
+                 conds=iT, typing=ity('int', 'tuple'), route=allc))
+    D.append(_sp(route=allc))
     # geometry clause: every molecule of the bundled G2 set, one fixed rigid motion + permutation each
     from ase.collections import g2
     for i, name in enumerate(g2.names):
@@ -826,6 +876,28 @@ def _typing_family(ty):
     return 'int' if ty['scalar'] in INT_KINDS else 'float'
 
 
+def _sigma_of(label):
+    """reference symmetry number of a label: the frozen documented table, else the general rule"""
+    return ref.POINT_GROUPS.get(label) or ref.symmetry_number_of_label(label)
+
+
+def _documented_labels():
+    """point-group labels the tree under test documents, read at run time:
+    (keys of constants.symmetry_dict that are not CAS numbers, {label: number} of the table in the
+    RigidRotor docstring)"""
+    import re
+    from pmutt import constants as c
+    from pmutt.statmech import rot
+    table = [k for k in getattr(c, 'symmetry_dict', {}) if isinstance(k, str)
+             and not re.fullmatch(r'\d+-\d\d-\d', k)]
+    doc = {}
+    for line in (rot.RigidRotor.__doc__ or '').splitlines():
+        m = re.fullmatch(r'\s+([A-Z][A-Za-z0-9*]*)\s+(\d+)\s*', line)
+        if m and m.group(1) not in ('Point',):
+            doc[m.group(1)] = int(m.group(2))
+    return table, doc
+
+
 def build_rot(ctx, m):
     """a rotor whose symmetry number is a documented point-group label must be the rotor of the
     tabulated number (R9); if the label is refused the case goes on with the number."""
@@ -838,10 +910,10 @@ def build_rot(ctx, m):
     mech = {'class': 'RigidRotor', 'label': label}
     obj = ctx.call('R9', mech, _construct, m)
     if obj is not core.NOVALUE:
-        if ctx.check('R9', obj.symmetrynumber == ref.POINT_GROUPS[label], mech,
-                     got=obj.symmetrynumber, want=ref.POINT_GROUPS[label]):
+        if ctx.check('R9', obj.symmetrynumber == _sigma_of(label), mech,
+                     got=obj.symmetrynumber, want=_sigma_of(label)):
             return obj
-    return _construct(dict(m, symmetrynumber=ref.POINT_GROUPS[label]))
+    return _construct(dict(m, symmetrynumber=_sigma_of(label)))
 
 
 def _cls_of(m):
@@ -1104,7 +1176,10 @@ def _observe_mode(ctx, obj, m, spec, full=True):
     closed_forms(ctx, obj, m, conds, spec['opts']['include_ZPE'], mech0)
     if ty and cname != 'LSR':
         # the same numbers given as plain floats in a list must give exactly the same values
-        twin = _construct(typed_mode(m, FLOAT_TY))
+        mt = m
+        if cname == 'RigidRotor' and isinstance(m['symmetrynumber'], str):
+            mt = dict(m, symmetrynumber=_sigma_of(m['symmetrynumber']))     # labels are R9's business
+        twin = _construct(typed_mode(mt, FLOAT_TY))
         for T, P in conds[:2]:
             for q in QUANTS + ('q',):
                 if q == 'q' and cname == 'QRRHOVib':
@@ -1216,10 +1291,98 @@ def _observe_species(ctx, sm, objs, cur, spec, misc_objs=None, relations=True):
                         ctx.close('R6', _num(e1), ue, TOL_ADD, mz, T=T)
 
 
+def _check_route(ctx, spec, cur, ty, sm, refs):
+    """The documented class + flat-kwargs assembly (StatMech(vib_model=vib.HarmonicVib,
+    vib_wavenumbers=..., ...), what pmutt.statmech.presets do) must give the species the object
+    route gives, for every constructor parameter of every mode: textbook closed forms on the modes
+    the species actually holds (R7) and totals equal to the object-route species (R6)."""
+    from pmutt.statmech import StatMech, EmptyMode, trans, vib, rot, elec, nucl
+    CLS = {'FreeTrans': trans.FreeTrans, 'HarmonicVib': vib.HarmonicVib, 'QRRHOVib': vib.QRRHOVib,
+           'EinsteinVib': vib.EinsteinVib, 'DebyeVib': vib.DebyeVib, 'RigidRotor': rot.RigidRotor,
+           'GroundStateElec': elec.GroundStateElec, 'EmptyNucl': nucl.EmptyNucl, 'EmptyMode': EmptyMode}
+    route = spec['route']
+    models, kwargs, by_class = {}, {}, []
+    for sl in SLOTS:
+        m = cur[sl]
+        cname = _cls_of(m)
+        if route.get(sl) == 'class' and cname in CLS:
+            models[sl] = CLS[cname]
+            by_class.append(sl)
+            ctx.cls('route:class:' + cname)
+            for k, v in (typed_mode(m, ty) or {}).items():
+                if k != 'type':
+                    kwargs[k] = v
+        else:
+            m1 = m
+            if sl == 'rot' and m and isinstance(m['symmetrynumber'], str):
+                m1 = dict(m, symmetrynumber=_sigma_of(m['symmetrynumber']))
+            models[sl] = _construct(typed_mode(m1, ty))
+    if len(by_class) == len(SLOTS):
+        ctx.cls('route:class:all_slots')
+    v, r = cur['vib'], cur['rot']
+    if 'vib' in by_class and v and 'vib_wavenumbers' in v and v.get('imaginary_substitute') is not None \
+            and any(w <= 0 for w in v['vib_wavenumbers']):
+        ctx.cls('route:class:imaginary_substitute')
+    if 'rot' in by_class and r and isinstance(r['symmetrynumber'], str):
+        ctx.cls('route:class:sigma_label')
+    if ty and by_class:
+        ctx.cls('route:class:typed')
+    mech_s = {'class': 'StatMech', 'route': 'class+kwargs'}
+    smc = ctx.call('R7', dict(mech_s, step='construct'), StatMech, name=spec['name'],
+                   trans_model=models['trans'], vib_model=models['vib'], rot_model=models['rot'],
+                   elec_model=models['elec'], nucl_model=models['nucl'], elements=dict(spec['elements']),
+                   references=refs, **kwargs)
+    if smc is core.NOVALUE:
+        return
+    o = spec['opts']
+    for sl in by_class:
+        m = cur[sl]
+        obj = getattr(smc, sl + '_model')
+        mech = {'class': _cls_of(m), 'route': 'class+kwargs'}
+        if not ctx.check('R7', type(obj) is CLS[_cls_of(m)], dict(mech, step='instantiate'),
+                         got=type(obj).__name__):
+            continue
+        closed_forms(ctx, obj, m, spec['conds'][:2] if m else spec['conds'][:1], o['include_ZPE'], mech)
+    kw = {'raise_error': o['raise_error'], 'raise_warning': o['raise_warning'],
+          'use_references': o['use_references']}
+    quants = list(QUANTS) + ([] if _cls_of(cur['vib']) == 'QRRHOVib' else ['q'])
+    for T, P in spec['conds'][:2]:
+        for q in quants:
+            kwq = dict(kw, include_ZPE=o['include_ZPE']) if q == 'q' else kw
+            mech = dict(mech_s, q=q)
+            a = ctx.call('R6', mech, getattr(smc, 'get_' + q), T=T, P=P, **kwq)
+            if a is core.NOVALUE:
+                continue
+            try:
+                b = _num(getattr(sm, 'get_' + q)(T=T, P=P, **kwq))
+            except Exception:
+                continue                # the object-route species fails itself: reported elsewhere
+            sc = abs(b) if (q == 'q' and 1e-280 < abs(b) < 1e280) else None
+            ctx.close('R6', _num(a), b, TOL_ADD, mech, scale=sc, T=T, P=P)
+        if cur['vib'] is not None:
+            mech = dict(mech_s, q='EoRT')
+            a = ctx.call('R6', mech, smc.get_EoRT, T=T, include_ZPE=True)
+            if a is not core.NOVALUE:
+                try:
+                    ctx.close('R6', _num(a), _num(sm.get_EoRT(T=T, include_ZPE=True)), TOL_ADD, mech, T=T)
+                except core.HarnessError:
+                    raise
+                except Exception:
+                    pass
+
+
 def run_species(spec, ctx):
     from pmutt.statmech import StatMech, ConstantMode
     _ST['tags'] = {'trans': None, 'vib': None, 'rot': None, 'elec': None, 'last': None}
     _ST['seen'] = set()
+    r0 = spec['rot']
+    if r0 and isinstance(r0['symmetrynumber'], str) and r0['symmetrynumber'].startswith('@'):
+        table, doc = _documented_labels()
+        labels = sorted(l for l in set(table) | set(doc) if ref.symmetry_number_of_label(l))
+        if not labels:
+            raise core.HarnessError('no documented point-group label found in the tree under test')
+        spec = dict(spec, rot=dict(r0, symmetrynumber=labels[int(r0['symmetrynumber'][1:]) % len(labels)]))
+        ctx.cls('sigma:label_from_runtime_table')
     _tally(ctx, spec)
     cur = {s: (dict(spec[s]) if spec[s] else None) for s in SLOTS}
     ty = spec.get('typing')
@@ -1263,12 +1426,14 @@ def run_species(spec, ctx):
     for slot in touched:
         m0 = spec[slot]
         if slot == 'rot' and isinstance(m0['symmetrynumber'], str):
-            m0 = dict(m0, symmetrynumber=ref.POINT_GROUPS[m0['symmetrynumber']])
+            m0 = dict(m0, symmetrynumber=_sigma_of(m0['symmetrynumber']))
         twins[slot] = _construct(typed_mode(m0, ty))
     # first evaluation of everything (caches / memos that exist get filled here)
     for s in SLOTS:
         _observe_mode(ctx, objs[s], cur[s], spec)
     _observe_species(ctx, sm, objs, cur, spec)
+    if spec.get('route'):
+        _check_route(ctx, spec, cur, ty, sm, refs)
     if spec['misc']:
         misc_objs = [ConstantMode(**m) for m in spec['misc']]
         smm = make(list(misc_objs))
@@ -1471,11 +1636,29 @@ def run_geometry(spec, ctx):
 def run_pointgroups(spec, ctx):
     from pmutt.statmech import rot
     T = spec['T']
-    labels = list(spec['labels'])
-    if sorted(labels) == LABELS:
-        ctx.cls('pointgroups:exhaustive')
+    doc = {}
+    if spec['labels'] == '@documented':
+        # "any documented point-group label": the set is whatever the tree under test documents
+        table, doc = _documented_labels()
+        labels = sorted(set(table) | set(doc))
+        if table:
+            ctx.cls('pointgroups:runtime_table')
+        if doc:
+            ctx.cls('pointgroups:docstring_table')
+        ctx.extra['documented_point_group_labels'] = len(labels)
+    else:
+        labels = list(spec['labels'])
+        if sorted(labels) == LABELS:
+            ctx.cls('pointgroups:exhaustive')
     for label in labels:
-        number = ref.POINT_GROUPS[label]
+        number = _sigma_of(label)
+        if number is None:
+            # a label the rule-based reference does not understand: undecided for this label only
+            ctx.inconc('R9', 'label_not_understood', label=label)
+            continue
+        if label in doc:
+            ctx.check('R9', doc[label] == number, {'class': 'RigidRotor', 'label': label, 'where': 'docstring'},
+                      documented=doc[label], want=number)
         for geom, thetas in (('linear', spec['rot_temperatures'][:1]), ('nonlinear', spec['rot_temperatures'])):
             mech = {'class': 'RigidRotor', 'label': label}
             a = ctx.call('R9', mech, rot.RigidRotor, symmetrynumber=label, geometry=geom,
